@@ -129,6 +129,7 @@ typedef struct {
 	_Atomic uint64_t t_before, t_after; // t_after == 0: not (yet) written
 	_Atomic uint32_t ctx, seq, klass, src;
 	_Atomic uint32_t delivered;
+	_Atomic uint32_t conn; // which connection / worker wrote it (diagnostics)
 } rrec;
 
 static struct {
@@ -143,7 +144,7 @@ static struct {
 } G;
 
 static uint32_t
-rr_alloc(uint32_t c, uint32_t s, int klass, int src)
+rr_alloc(uint32_t c, uint32_t s, int klass, int src, uint32_t conn)
 {
 	uint32_t serial = atomic_fetch_add(&G.rr_n, 1);
 	if (serial >= G.rr_cap) vf_harness_fail("response table full (%u)", serial);
@@ -152,6 +153,7 @@ rr_alloc(uint32_t c, uint32_t s, int klass, int src)
 	atomic_store(&e->seq, s);
 	atomic_store(&e->klass, (uint32_t) klass);
 	atomic_store(&e->src, (uint32_t) src);
+	atomic_store(&e->conn, conn);
 	return serial;
 }
 
@@ -367,6 +369,37 @@ adv_account(const pframe *f, uint64_t t_before)
 	pthread_mutex_unlock(&A.mtx);
 }
 
+// ------------------------------------------------------------ debug trace
+typedef struct {
+	uint64_t t;
+	int      fd;
+	char     what[8];
+	uint32_t a, b, c;
+} dbgev;
+static dbgev           dbg[8192];
+static _Atomic uint32_t dbg_n;
+static void
+dbg_ev(int fd, const char *what, uint32_t a, uint32_t b, uint32_t c)
+{
+	uint32_t i = atomic_fetch_add(&dbg_n, 1) % 8192;
+	dbg[i].t = vf_now_ns();
+	dbg[i].fd = fd;
+	snprintf(dbg[i].what, sizeof(dbg[i].what), "%s", what);
+	dbg[i].a = a;
+	dbg[i].b = b;
+	dbg[i].c = c;
+}
+static void
+dbg_dump(uint64_t from, uint64_t to)
+{
+	uint32_t n = atomic_load(&dbg_n);
+	for (uint32_t k = n > 8192 ? n - 8192 : 0; k < n; k++) {
+		dbgev *e = &dbg[k % 8192];
+		if (e->t < from || e->t > to) continue;
+		fprintf(stderr, "DBG %+9lld us fd=%d %s %u %u %u\n", (long long) ((int64_t) (e->t - from) / 1000), e->fd, e->what, e->a, e->b, e->c);
+	}
+}
+
 // ------------------------------------------------------------ tcp adversary
 typedef struct {
 	int       fd;
@@ -385,7 +418,7 @@ static int
 tcp_emit(int fd, const pframe *f)
 {
 	uint8_t  buf[8 + 4 + 128];
-	uint32_t serial = rr_alloc(f->c, f->s, f->klass, SRC_TCP);
+	uint32_t serial = rr_alloc(f->c, f->s, f->klass, SRC_TCP, (uint32_t) fd);
 	size_t   bl = build_resp(buf + 12, f->c, f->s, f->klass, serial);
 	memset(buf, 0, 8);
 	put32(buf + 4, (uint32_t) (bl + 4));
@@ -394,6 +427,7 @@ tcp_emit(int fd, const pframe *f)
 	atomic_store(&G.rr[serial].t_before, tb);
 	int rv = vf_fd_write_all(fd, buf, 12 + bl, 5000);
 	if (rv == 0) atomic_store(&G.rr[serial].t_after, vf_now_ns());
+	dbg_ev(fd, "emit", serial, f->c, f->s);
 	adv_account(f, tb);
 	return rv;
 }
@@ -411,9 +445,11 @@ tcp_conn_thread(void *arg)
 	vf_rng_seed(&lr, vf_mix64((uint64_t) fd), 99);
 
 	if (vf_sp_handshake(fd, 0x63, &peer, 5000) != 0 || peer != 0x62) {
+		dbg_ev(fd, "hsfail", peer, 0, 0);
 		close(fd);
 		return NULL;
 	}
+	dbg_ev(fd, "open", 0, 0, 0);
 	for (;;) {
 		uint64_t now = vf_now_ns(), next = 0;
 		for (int i = 0; i < ndq;) {
@@ -455,6 +491,7 @@ tcp_conn_thread(void *arg)
 		pframe pl[10];
 		bool   kill = false;
 		int    n = adv_plan(id, tag & 0xff, (uint32_t) seq, (int) ((tag >> 8) & 0xff), pl, &kill);
+		dbg_ev(fd, "survey", tag & 0xff, (uint32_t) seq, (uint32_t) kill);
 		for (int i = 0; i < n; i++) {
 			if (!adv_resolve(&pl[i])) continue;
 			if (pl[i].due == 0 || ndq >= NDQ) {
@@ -478,11 +515,14 @@ tcp_conn_thread(void *arg)
 			sf[8] = 0x80;
 			sf[9] = sf[10] = 0x11;
 			vf_fd_write_all(fd, sf, 8 + (size_t) sl, 5000);
-			vf_fd_wait_eof(fd, 5000);
+			dbg_ev(fd, "short", (uint32_t) sl, 0, 0);
+			int eo = vf_fd_wait_eof(fd, 5000);
+			dbg_ev(fd, "eof", (uint32_t) eo, 0, 0);
 			break;
 		}
 	}
 out:
+	dbg_ev(fd, "close", 0, 0, 0);
 	close(fd);
 	return NULL;
 }
@@ -516,7 +556,7 @@ xresp_emit(uint32_t pipe, const pframe *f)
 {
 	nng_msg *m;
 	uint8_t  buf[128];
-	uint32_t serial = rr_alloc(f->c, f->s, f->klass, SRC_XRESP);
+	uint32_t serial = rr_alloc(f->c, f->s, f->klass, SRC_XRESP, pipe);
 	size_t   bl = build_resp(buf, f->c, f->s, f->klass, serial);
 	if (nng_msg_alloc(&m, 0) != 0) vf_harness_fail("msg alloc");
 	nng_msg_header_append_u32(m, pipe);
@@ -675,7 +715,7 @@ real_worker(void *arg)
 			if (atomic_load(&G.stop)) break;
 		}
 		uint8_t  buf[128];
-		uint32_t serial = rr_alloc(c, s, K_ECHO, SRC_REAL);
+		uint32_t serial = rr_alloc(c, s, K_ECHO, SRC_REAL, 1000 + (uint32_t) (w - P.w));
 		size_t   bl = build_resp(buf, c, s, K_ECHO, serial);
 		if (nng_msg_alloc(&m, 0) != 0) vf_harness_fail("msg alloc");
 		nng_msg_append(m, buf, bl);
@@ -730,6 +770,8 @@ typedef struct cthr {
 	bool     tainted; // a receive on it timed out by itself / was cancelled
 	uint64_t taint_at;
 	uint32_t scan_from;
+	int      nrecv;                     // receives issued on the current survey
+	uint64_t first_rstart, last_rstart; // diagnostics
 	// evidence
 	long dlv[K_N], ops[OP_N], dirs[D_N], surveys, estate_never, estate_expired, estate_ambiguous, deadline_timeouts, own_timeouts, clamp_by[4], cancelled_by_send,
 	    completed_before_send, cancel_won, cancel_lost, must_checked, must_rounds, after_taint[3], fresh_probes, expiry_probe_msgs, idle_expiries;
@@ -807,6 +849,10 @@ r_start(cthr *t, rcv *rc, int tmo, const nng_ctx *other)
 		nng_ctx_recv(t->ctx, o->aio);
 	}
 	rc->t_rstarted = vf_now_ns();
+	if (other == NULL) {
+		if (t->nrecv++ == 0) t->first_rstart = rc->t_rstarted;
+		t->last_rstart = rc->t_rstarted;
+	}
 }
 
 static void
@@ -1046,6 +1092,7 @@ t_send(cthr *t, int dir, uint32_t T)
 	t->t_ret = tr;
 	t->tainted = false;
 	t->taint_at = UINT64_MAX;
+	t->nrecv = 0;
 	atomic_store(&e->t_ret, tr);
 	if ((rv = nng_aio_result(t->saio)) != 0) {
 		if ((m = nng_aio_get_msg(t->saio)) != NULL) nng_msg_free(m);
@@ -1107,8 +1154,18 @@ scan_lost(cthr *t)
 			continue;
 		}
 		snprintf(key, sizeof(key), "C07/live-survey/response-lost/%s/%s", srcname[src % SRC_N], opname[t->op]);
-		vf_violation(key, "ctx %d op %s: response frame #%u (%s) to survey %u was written %llu us after the survey was sent (T=%u ms), the context kept receiving until the deadline, and it was never delivered",
-		    t->idx, opname[t->op], i, kname[kl % K_N], t->seq, (unsigned long long) ((ta - t->t_call) / 1000), t->T);
+		// how did the same connection fare afterwards?
+		uint32_t conn = atomic_load(&e->conn);
+		int      later = 0, later_dlv = 0;
+		for (uint32_t j = i + 1; j < n; j++) {
+			if (atomic_load(&G.rr[j].conn) != conn || atomic_load(&G.rr[j].src) != src || atomic_load(&G.rr[j].t_after) == 0) continue;
+			later++;
+			if (atomic_load(&G.rr[j].delivered)) later_dlv++;
+		}
+		vf_violation(key, "ctx %d op %s: response frame #%u (%s) to survey %u was written %llu us after the survey was sent (T=%u ms; send took %llu us), the context kept receiving (%d receives, first issued at %llu us, last at %llu us) until a receive timed out, and it was never delivered (same connection afterwards: %d frames written, %d delivered)",
+		    t->idx, opname[t->op], i, kname[kl % K_N], t->seq, (unsigned long long) ((ta - t->t_call) / 1000), t->T, (unsigned long long) ((t->t_ret - t->t_call) / 1000), t->nrecv,
+		    (unsigned long long) ((t->first_rstart - t->t_call) / 1000), (unsigned long long) ((t->last_rstart - t->t_call) / 1000), later, later_dlv);
+		dbg_dump(t->t_call - 30 * MS, t->t_call + 100 * MS);
 	}
 	if (any) t->must_rounds++;
 }
